@@ -35,6 +35,7 @@ type c02Keys struct {
 	Salted  string // last segment of IDKey
 	Cubby   string // the directory segment of the token's cubbyhole
 	LeaseID string // id of the token's own lease (suffix of .../sys/expire/id/)
+	LeaseKey string // physical key of that lease
 }
 
 // owns: the key belongs to a record of this token (its entry, its lease, its parent
@@ -49,9 +50,19 @@ func (k *c02Keys) owns(key string) bool {
 // newParent creates a service token whose storage names are known: the creation and
 // one cubbyhole write run tagged under the physical log.
 func (x *c02Run) newParent(name, kind, ns string, data map[string]any) *c02Tok {
+	return x.newParentBy(name, kind, ns, data, nil)
+}
+
+// newParentBy: the same, created by service token by (nil: the root token) with the request
+// addressed to namespace ns (which may be a descendant of by's namespace).
+func (x *c02Run) newParentBy(name, kind, ns string, data map[string]any, by *c02Tok) *c02Tok {
 	v := x.v
+	creator := ""
+	if by != nil {
+		creator = by.ID
+	}
 	v.Probe.StartLog(false)
-	t, why := x.tryTok(name, kind, ns, data, "", "", "c02mk")
+	t, why := x.tryTok(name, kind, ns, data, "", creator, "c02mk")
 	if t == nil {
 		v.Probe.StopLog()
 		x.t.Fatalf("verif: creating parent token %s in %q failed: %s", name, ns, why)
@@ -69,6 +80,7 @@ func (x *c02Run) newParent(name, kind, ns string, data map[string]any) *c02Tok {
 			k.Salted = e.Key[strings.LastIndex(e.Key, "/")+1:]
 		case strings.Contains(e.Key, "sys/expire/id/"):
 			k.LeaseID = e.Key[strings.Index(e.Key, "sys/expire/id/")+len("sys/expire/id/"):]
+			k.LeaseKey = e.Key
 		case strings.HasSuffix(e.Key, "/c02k"):
 			parts := strings.Split(e.Key, "/")
 			if len(parts) >= 2 {
@@ -80,6 +92,10 @@ func (x *c02Run) newParent(name, kind, ns string, data map[string]any) *c02Tok {
 		x.t.Fatalf("verif: cannot read the storage names of token %s from the log of its creation (%d events, cubbyhole write: %s)", name, len(evs), vErrStr(resp, err))
 	}
 	t.Keys = k
+	if by != nil {
+		t.Up = by
+		by.Kids = append(by.Kids, t)
+	}
 	return t
 }
 
@@ -286,8 +302,10 @@ func (x *c02Run) revokeAndClassify(fl c02Flow, p *c02Tok, probe *c02Mount) strin
 	x.step("REVOCATION %s of %s -> %s", fl.name, c02TokName(p), vErrStr(resp, err))
 	if reported {
 		p.Revoked, p.Kind = true, "revoked"
+		x.afterRevocation(fl, p, true)
 		return "reported-success"
 	}
+	defer x.afterRevocation(fl, p, false)
 	x.r.Count("revocations_reported_error", 1)
 	// present the token itself on a path its policies allow
 	path := "auth/token/lookup-self"
